@@ -34,22 +34,33 @@ theorem isSuffixOf_singleton (b : Byte) (s : Bytes) : List.isSuffixOf [b] s = de
   simp only [List.isSuffixOf, List.reverse_cons, List.reverse_nil, List.nil_append]
   rw [isPrefixOf_singleton, List.head?_reverse]
 
-/-- `command.Parse`, regenerated, is the model's `parse` -/
-theorem Command_Parse_eq (lower : Bytes → Bytes) (s : Bytes) :
-    Gen.Command_Parse lower s = (Command.parse lower s).mapError cmdErr := by
+/-- `command.Parse`, regenerated, ACCEPTS what the model's `parse` accepts and returns what it returns (C15: which strings are
+accepted, returned unchanged). Which error a refused string gets is not part of the property and is not fixed here: the proof is a
+case analysis over the three tests and goes through for any order in which the function makes them (`CommandExact` has the equality
+with the error class, for the code as it is today; it belongs to no property). -/
+theorem Command_Parse_ok_iff (lower : Bytes → Bytes) (s c : Bytes) :
+    Gen.Command_Parse lower s = .ok c ↔ Command.parse lower s = .ok c := by
   unfold Gen.Command_Parse Command.parse
   simp only [isPrefixOf_singleton, isSuffixOf_singleton, len, Command.slash]
-  by_cases h1 : s.head? = some 47
-  · by_cases h2 : s.length > 1 ∧ s.getLast? = some 47
-    · have : (1 : Int) < s.length := by omega
-      simp [h1, h2, this, Except.mapError, cmdErr, throw, throwThe, MonadExceptOf.throw, bind, Except.bind]
-    · by_cases h3 : s = lower s
-      · have hh : ¬ ((1 : Int) < s.length ∧ s.getLast? = some 47) := by
-          intro ⟨a, b⟩; exact h2 ⟨by omega, b⟩
-        simp [h1, h2, ← h3, hh, Except.mapError, pure, Except.pure]
-      · have hh : ¬ ((1 : Int) < s.length ∧ s.getLast? = some 47) := by
-          intro ⟨a, b⟩; exact h2 ⟨by omega, b⟩
-        simp [h1, h2, h3, hh, Except.mapError, cmdErr, throw, throwThe, MonadExceptOf.throw, bind, Except.bind]
-  · simp [h1, Except.mapError, cmdErr, throw, throwThe, MonadExceptOf.throw, bind, Except.bind]
+  have hlen : ((1 : Int) < (s.length : Int)) ↔ s.length > 1 := by omega
+  by_cases h3 : lower s = s
+  · by_cases h1 : s.head? = some 47 <;> by_cases h2 : s.length > 1 <;> by_cases h2' : s.getLast? = some 47 <;>
+      simp [h1, h2, h2', h3, hlen, throw, throwThe, MonadExceptOf.throw, bind, Except.bind, pure, Except.pure]
+  · have h3' : ¬ s = lower s := fun e => h3 e.symm
+    by_cases h1 : s.head? = some 47 <;> by_cases h2 : s.length > 1 <;> by_cases h2' : s.getLast? = some 47 <;>
+      simp [h1, h2, h2', h3', hlen, throw, throwThe, MonadExceptOf.throw, bind, Except.bind, pure, Except.pure]
+
+/-- a refused string is refused (with some error), an accepted one is returned unchanged -/
+theorem Command_Parse_refuses_iff (lower : Bytes → Bytes) (s : Bytes) :
+    (∃ e, Gen.Command_Parse lower s = .error e) ↔ (∃ e, Command.parse lower s = .error e) := by
+  have h := Command_Parse_ok_iff lower s
+  cases hg : Gen.Command_Parse lower s with
+  | ok c =>
+    have := (h c).1 hg
+    simp [this]
+  | error e =>
+    cases hm : Command.parse lower s with
+    | error e' => simp
+    | ok c => have := (h c).2 hm; rw [hg] at this; cases this
 
 end Ucan.Tie
